@@ -357,6 +357,30 @@ class Hist:
             ops.append("ib:%s:%s:-" % (self.h(first + depth // 2), self.h(first + depth - 2)))
         return ops
 
+    def deep_move(self, limit):
+        """a chain attached below the document element down to level limit-1, a small subtree attached elsewhere, then the
+        ATTACHED subtree is moved to the bottom of the chain (must be refused: it would reach below the limit), its leaf alone
+        is moved there (allowed: level = limit), and its former parent below that leaf (refused)  (round-6 seed C15-G checked the
+        depth of detached arguments only)"""
+        ops = []
+        root = [h for h in self.kids.get(0, []) if self.shadow[h] == "elem"]
+        if not root:
+            return ops
+        first = len(self.shadow)
+        n = limit - 2
+        for i in range(n + 3):
+            ops.append("ce:d")
+            self.shadow.append("elem")
+        parent = root[0]
+        for i in range(n):
+            ops.append("ap:%s:%s" % (self.h(parent), self.h(first + i)))
+            parent = first + i
+        s1, s2, s3 = first + n, first + n + 1, first + n + 2
+        ops += ["ap:%s:%s" % (self.h(root[0]), self.h(s1)), "ap:%s:%s" % (self.h(s1), self.h(s2)), "ap:%s:%s" % (self.h(s2), self.h(s3))]
+        ops += ["ap:%s:%s" % (self.h(parent), self.h(s1)), "ap:%s:%s" % (self.h(parent), self.h(s3)), "ap:%s:%s" % (self.h(s3), self.h(s2)),
+                "ib:%s:%s:-" % (self.h(parent), self.h(s2)), "rc:%s:%s:%s" % (self.h(parent), self.h(s1), self.h(s3))]
+        return ops
+
     def deep_chain(self, depth):
         """created elements appended one below the other: a tree deeper than any the parser accepts"""
         ops = []
